@@ -33,6 +33,44 @@ theorem frame (p : Particle) (w : World) (i j : Nat) (op : Op) (h : j ≠ i) : o
 def fresh (w : World) (i : Nat) : World := update w i []
 theorem fresh_independent (w w' : World) (i : Nat) : fresh w i i = fresh w' i i := by simp [fresh, update]
 
+/-! ## whole histories over many instances -/
+
+/-- any interleaving of operations on any number of instances, each with its own template -/
+def runW (tp : Nat → Particle) (w : World) (ops : List (Nat × Op)) : World :=
+  ops.foldl (fun w o => opOn (tp o.1) w o.1 o.2) w
+
+/-- the operations addressed to instance `j`, in order -/
+def own (j : Nat) (ops : List (Nat × Op)) : List Op := (ops.filter (·.1 == j)).map (·.2)
+
+theorem opOn_self (p : Particle) (w : World) (i : Nat) (k : Kids) (op : Op) (h : w i = some k) :
+    opOn p w i op i = some (apply p k op) := by
+  unfold opOn; rw [h]; simp [update]
+
+/-- isolation for whole histories: after any interleaved history over all instances, instance `j`
+is in the state its *own* operations alone produce from where it started — whatever the other
+instances (same class or not) did in between -/
+theorem isolation (tp : Nat → Particle) (ops : List (Nat × Op)) (w : World) (j : Nat) (k : Kids) (h : w j = some k) :
+    runW tp w ops j = some ((own j ops).foldl (apply (tp j)) k) := by
+  induction ops generalizing w k with
+  | nil => simpa [runW, own] using h
+  | cons o r ih =>
+    obtain ⟨i, op⟩ := o
+    unfold runW at ih ⊢
+    rw [List.foldl_cons]
+    by_cases hij : i = j
+    · subst hij
+      rw [ih _ _ (opOn_self (tp i) w i k op h)]
+      simp [own]
+    · have hji : j ≠ i := fun e => hij e.symm
+      rw [ih _ k (by rw [frame _ _ _ _ _ hji]; exact h)]
+      have : ((i, op).1 == j) = false := by simpa using hij
+      simp [own, this]
+
+/-- two worlds that agree on instance `j` agree on it after the same history, whatever else they hold -/
+theorem isolation_worlds (tp : Nat → Particle) (ops : List (Nat × Op)) (w w' : World) (j : Nat) (k : Kids)
+    (h : w j = some k) (h' : w' j = some k) : runW tp w ops j = runW tp w' ops j := by
+  rw [isolation tp ops w j k h, isolation tp ops w' j k h']
+
 /-- inventory of shared class-level state (translator, re-decided every run) -/
 def knownMutables : List String := ["_PROPERTIES", "_TYPES", "_UNION", "_FORCED_PERMITTED", "_PERMITTED"]
 def knownCells : List String := ["_XSD_ATTRIBUTES", "XSD_TREE", "_XSD_TREE"]
@@ -44,3 +82,5 @@ end C13
 #print axioms C13.fresh_independent
 #print axioms C13.class_mutables_known
 #print axioms C13.class_cells_known
+#print axioms C13.isolation
+#print axioms C13.isolation_worlds
